@@ -67,16 +67,15 @@ Fixpoint spec (e : ox) : option meta :=
       | _, _ => None
       end
   | XDRep e n ia oa =>
-      (* the replicate axis is inserted at the normalised input / output position; with
-         output_axis = None the input position must also exist in the operand's output *)
+      (* the replicate axis is inserted at the normalised input / output position; a defaulted
+         output axis (= the input position) must exist in the operand's output, like an explicit one *)
       match spec e with
       | Some m =>
           match ish m, osh m with
           | Plain si, Plain so =>
               match drep_axes (length si) (length so) ia oa with
               | Some (ki, ko) =>
-                  if (length so <? ko)%nat then None
-                  else Some (mkmeta (Plain (insert_at ki n si)) (Plain (insert_at ko n so)) (idt m) (odt m))
+                  Some (mkmeta (Plain (insert_at ki n si)) (Plain (insert_at ko n so)) (idt m) (odt m))
               | None => None
               end
           | _, _ => None
